@@ -36,6 +36,7 @@ import (
 	"strconv"
 	"strings"
 	"sync"
+	"sync/atomic"
 	"testing"
 	"time"
 
@@ -53,6 +54,8 @@ const (
 	viNF  = -1
 	viG   = -2
 	viERR = -3
+
+	viMaxCalls = 64
 
 	viT0       = int64(1600000000)
 	viBadBits  = uint32(0x207ffffe)
@@ -83,6 +86,7 @@ type viAct struct {
 	Run int     `json:"run"`
 	Res string  `json:"res"`
 	Inj string  `json:"inj"`
+	Sn  int     `json:"sn"`
 	N   int     `json:"n"`
 	T   int     `json:"t"`
 	Hs  [][]int `json:"hs"`
@@ -328,21 +332,23 @@ func (w *viWorld) getBranch(x int, kind string) (*viBranch, error) {
 // One configuration on disk
 
 type viEnv struct {
-	w      *viWorld
-	cfg    viCfg
-	dir    string
-	hh     int
-	db     walletdb.DB
-	b      headerfs.BlockHeaderStore
-	f      headerfs.FilterHeaderStore
-	up     bool
-	br     *viBranch
-	byBH   map[chainhash.Hash]int
-	byFH   map[chainhash.Hash]int
-	hdrOf  map[int]*wire.BlockHeader
-	bPath  string
-	fPath  string
-	detail []string
+	w       *viWorld
+	cfg     viCfg
+	dir     string
+	hh      int
+	db      walletdb.DB
+	b       headerfs.BlockHeaderStore
+	f       headerfs.FilterHeaderStore
+	up      bool
+	br      *viBranch
+	byBH    map[chainhash.Hash]int
+	byFH    map[chainhash.Hash]int
+	hdrOf   map[int]*wire.BlockHeader
+	bPath   string
+	fPath   string
+	plan    *viPlan
+	crashed bool
+	detail  []string
 }
 
 func viCopy(src, dst string) error {
@@ -373,7 +379,7 @@ func viCloneDir(src, dst string) error {
 	return nil
 }
 
-func viOpenStores(dir string, create bool) (walletdb.DB, headerfs.BlockHeaderStore,
+func viOpenStores(dir string, create bool, plan *viPlan) (walletdb.DB, headerfs.BlockHeaderStore,
 	headerfs.FilterHeaderStore, error) {
 
 	var (
@@ -389,18 +395,44 @@ func viOpenStores(dir string, create bool) (walletdb.DB, headerfs.BlockHeaderSto
 	if err != nil {
 		return nil, nil, nil, fmt.Errorf("db: %w", err)
 	}
+	var sdb walletdb.DB = db
+	if plan != nil {
+		sdb = &viDB{DB: db, p: plan}
+	}
 	p := viParams
-	b, err := headerfs.NewBlockHeaderStore(dir, db, &p)
+	b, err := headerfs.NewBlockHeaderStore(dir, sdb, &p)
 	if err != nil {
 		db.Close()
 		return nil, nil, nil, fmt.Errorf("block store: %w", err)
 	}
-	f, err := headerfs.NewFilterHeaderStore(dir, db, headerfs.RegularFilter, &p, nil)
+	f, err := headerfs.NewFilterHeaderStore(dir, sdb, headerfs.RegularFilter, &p, nil)
 	if err != nil {
+		viCloseFiles(b)
 		db.Close()
 		return nil, nil, nil, fmt.Errorf("filter store: %w", err)
 	}
+	if plan != nil {
+		headerfs.VerifImportWrapFile(b, func(fl headerfs.File) headerfs.File {
+			return &viFile{File: fl, p: plan, half: 40}
+		})
+		headerfs.VerifImportWrapFile(f, func(fl headerfs.File) headerfs.File {
+			return &viFile{File: fl, p: plan, half: 16}
+		})
+	}
 	return db, b, f, nil
+}
+
+// viCloseFiles closes the flat files of the given stores (no write happens).
+func viCloseFiles(stores ...interface{}) {
+	for _, st := range stores {
+		if st == nil {
+			continue
+		}
+		headerfs.VerifImportWrapFile(st, func(fl headerfs.File) headerfs.File {
+			fl.Close()
+			return fl
+		})
+	}
 }
 
 // templates: one directory per (hB, hF) holding the stores before the import.
@@ -419,10 +451,11 @@ type viTmpl struct {
 
 func (t *viTemplates) base() (string, error) {
 	return t.get("base", func(dir string) error {
-		db, _, _, err := viOpenStores(dir, true)
+		db, b, f, err := viOpenStores(dir, true, nil)
 		if err != nil {
 			return err
 		}
+		viCloseFiles(b, f)
 		return db.Close()
 	})
 }
@@ -454,11 +487,12 @@ func (t *viTemplates) forHeights(hB, hF int) (string, error) {
 		if err := viCloneDir(base, dir); err != nil {
 			return err
 		}
-		db, b, f, err := viOpenStores(dir, false)
+		db, b, f, err := viOpenStores(dir, false, nil)
 		if err != nil {
 			return err
 		}
 		defer db.Close()
+		defer viCloseFiles(b, f)
 		top := hB
 		if hF > top {
 			top = hF
@@ -488,7 +522,11 @@ func (t *viTemplates) forHeights(hB, hF int) (string, error) {
 }
 
 func (e *viEnv) open() error {
-	db, b, f, err := viOpenStores(e.dir, false)
+	if e.plan == nil {
+		e.plan = &viPlan{}
+	}
+	e.plan.arm("", 0)
+	db, b, f, err := viOpenStores(e.dir, false, e.plan)
 	if err != nil {
 		e.up = false
 		return err
@@ -498,8 +536,13 @@ func (e *viEnv) open() error {
 }
 
 // kill drops everything volatile without writing anything (process death).
-// The header files' descriptors are released by the garbage collector.
 func (e *viEnv) kill() {
+	if e.b != nil {
+		viCloseFiles(e.b)
+	}
+	if e.f != nil {
+		viCloseFiles(e.f)
+	}
 	if e.db != nil {
 		e.db.Close()
 	}
@@ -677,6 +720,69 @@ func (e *viEnv) writeFiles() error {
 }
 
 // ---------------------------------------------------------------------------
+// Crash points INSIDE a store call: the flat files (through the overlay hook
+// headerfs.VerifImportWrapFile) and the walletdb.DB handed to the stores are
+// wrapped; the armed plan says where the current call dies.
+
+type viPlan struct {
+	kind    string // "" | cw | c2
+	sn      int
+	durable int
+	fired   bool
+}
+
+func (p *viPlan) arm(kind string, sn int) { p.kind, p.sn, p.durable, p.fired = kind, sn, 0, false }
+
+// step is called at the entry of every durable step (file write, file
+// truncate, index transaction).
+func (p *viPlan) step() {
+	p.durable++
+	if p.kind == "c2" && p.durable == 2 && !p.fired {
+		p.fired = true
+		panic(viCrash{})
+	}
+}
+
+type viFile struct {
+	headerfs.File
+	p    *viPlan
+	half int
+}
+
+func (f *viFile) Write(b []byte) (int, error) {
+	f.p.step()
+	if f.p.kind == "cw" && !f.p.fired {
+		f.p.fired = true
+		n := f.p.sn * f.half
+		if n > len(b) {
+			n = len(b)
+		}
+		if n > 0 {
+			if _, err := f.File.Write(b[:n]); err != nil {
+				panic(err)
+			}
+		}
+		panic(viCrash{})
+	}
+	return f.File.Write(b)
+}
+
+func (f *viFile) Truncate(sz int64) error {
+	f.p.step()
+	return f.File.Truncate(sz)
+}
+
+type viDB struct {
+	walletdb.DB
+	p *viPlan
+}
+
+func (d *viDB) Update(f func(tx walletdb.ReadWriteTx) error, reset func()) error {
+	d.p.step()
+	return d.DB.Update(f, reset)
+}
+
+// ---------------------------------------------------------------------------
 // Store wrappers: observe every mutating store call of the importer, inject.
 
 type viCall struct {
@@ -684,20 +790,32 @@ type viCall struct {
 	obs viObs
 }
 
+type viInj struct {
+	kind string // err | cb | ca | cw | c2
+	sn   int
+}
+
 type viTap struct {
 	e     *viEnv
 	run   int
-	n     int            // mutating calls so far
-	plan  map[int]string // call number -> err | cb | ca
+	n     int           // mutating calls so far
+	plan  map[int]viInj // call number -> what to inject
 	calls []viCall
 }
 
 func (t *viTap) do(a viAct, fn func() error) error {
 	t.n++
-	inj := t.plan[t.n]
-	a.Run, a.Cfg, a.Inj = t.run, t.e.cfg, "none"
+	inj := t.plan[t.n].kind
+	a.Run, a.Cfg, a.Inj, a.Sn = t.run, t.e.cfg, "none", 0
 	if inj != "" {
-		a.Inj = inj
+		a.Inj, a.Sn = inj, t.plan[t.n].sn
+	}
+	if t.n > viMaxCalls {
+		// The import keeps writing far beyond anything the configuration
+		// can need (a loop that does not advance): stop it with an I/O
+		// error instead of letting it fill the disk; what it did to the
+		// stores until here is judged like any other failed import.
+		inj, a.Inj = "err", "runaway"
 	}
 	switch inj {
 	case "err":
@@ -708,6 +826,30 @@ func (t *viTap) do(a viAct, fn func() error) error {
 		a.Res = "crash"
 		t.calls = append(t.calls, viCall{act: a})
 		panic(viCrash{})
+	case "cw", "c2":
+		t.e.plan.arm(inj, a.Sn)
+		var err error
+		func() {
+			defer func() {
+				t.e.plan.arm("", 0)
+				if r := recover(); r != nil {
+					if _, ok := r.(viCrash); ok {
+						a.Res = "crash"
+						t.calls = append(t.calls, viCall{act: a})
+					}
+					panic(r)
+				}
+			}()
+			err = fn()
+		}()
+		// the crash point was not reached: the call ran to completion
+		a.Res = "ok"
+		if err != nil {
+			a.Res = "err"
+		}
+		t.e.detail = append(t.e.detail, "planned crash point "+inj+" not reached in "+a.Op)
+		t.calls = append(t.calls, viCall{act: a, obs: t.e.observe()})
+		return err
 	case "ca":
 		err := fn()
 		a.Res = "crash"
@@ -816,7 +958,7 @@ func viFailedStage(err error) int {
 
 // runImport executes Import once and appends its steps. Returns "ok", "err",
 // "panic" or "crash".
-func (e *viEnv) runImport(run int, plan map[int]string, out *[]viStepOut) string {
+func (e *viEnv) runImport(run int, plan map[int]viInj, out *[]viStepOut) string {
 	tap := &viTap{e: e, run: run, plan: plan}
 	before := e.observe()
 	opts := &ImportOptions{
@@ -934,7 +1076,200 @@ func (e *viEnv) probe(run int, out *[]viStepOut) {
 	*out = append(*out, viStepOut{Act: a, Obs: e.observe()})
 }
 
-func viRunPath(t *viTemplates, p viPathIn, scratch string) (out viPathOut) {
+// viSlot is a worker's store directory. Cloning the template (an 8 MB bbolt
+// file) for every path dominates the run time, so a directory whose stores are
+// still open is reused: both stores are rolled back to the longest prefix of
+// the reference chain they hold, extended with reference headers to the
+// heights the next configuration wants, and the result is CHECKED through the
+// read API against the expected initial state. Anything else (closed stores,
+// a reset step failing, a mismatch) discards the directory and clones afresh.
+type viSlot struct {
+	dir  string
+	db   walletdb.DB
+	b    headerfs.BlockHeaderStore
+	f    headerfs.FilterHeaderStore
+	plan *viPlan
+}
+
+func (s *viSlot) discard() {
+	if s.db != nil {
+		viCloseFiles(s.b, s.f)
+		s.db.Close()
+	}
+	if s.dir != "" {
+		os.RemoveAll(s.dir)
+	}
+	*s = viSlot{}
+}
+
+var viClones atomic.Int64
+
+func viInitialObs(hh, top, hF int) viObs {
+	o := viObs{Up: 1}
+	o.B = viBObs{Tip: []int{top, top}, ByH: viFill(hh, viNF), Hh: viFill(hh, viNF)}
+	o.F = viFObs{Tip: []int{hF, hF}, ByH: viFill(hh, viNF)}
+	for h := 0; h <= top; h++ {
+		o.B.ByH[h], o.B.Hh[h] = h, h
+	}
+	for h := 0; h <= hF; h++ {
+		o.F.ByH[h] = h
+	}
+	return o
+}
+
+func viSameObs(a, b viObs) bool {
+	x, _ := json.Marshal(a)
+	y, _ := json.Marshal(b)
+	return bytes.Equal(x, y)
+}
+
+// reset brings open, healthy stores to block height top / filter height hF
+// holding reference headers only. Returns false if that is not possible.
+func (s *viSlot) reset(e *viEnv, top, hF int) bool {
+	e.dir, e.db, e.b, e.f, e.plan, e.up = s.dir, s.db, s.b, s.f, s.plan, true
+	e.plan.arm("", 0)
+	o := e.observe()
+	if o.Up == 1 && o.B.Tip[1] >= 0 && o.F.Tip[1] < 0 {
+		// Filter store ahead of a rolled-back block store (its tip no
+		// longer resolves): put the reference block headers back.
+		fl := 0
+		for fl < e.hh && o.F.ByH[fl] >= 0 {
+			fl++
+		}
+		var bh []headerfs.BlockHeader
+		for h := o.B.Tip[1] + 1; h < fl; h++ {
+			bh = append(bh, headerfs.BlockHeader{BlockHeader: e.w.main[h], Height: uint32(h)})
+		}
+		if o.B.Tip[0] == o.B.Tip[1] && len(bh) > 0 && e.b.WriteHeaders(bh...) == nil {
+			o = e.observe()
+		}
+	}
+	// (tip ids may be unknown here: headers of the previous configuration)
+	if o.Up != 1 || o.B.Tip[1] < 0 || o.F.Tip[1] < 0 || o.B.Tip[1] >= e.hh ||
+		o.F.Tip[1] > o.B.Tip[1] {
+
+		return viResetFail(1)
+	}
+	kb := 0
+	for kb+1 <= o.B.Tip[1] && o.B.ByH[kb+1] == kb+1 && o.B.Hh[kb+1] == kb+1 {
+		kb++
+	}
+	if kb > top {
+		kb = top
+	}
+	kf := 0
+	for kf+1 <= o.F.Tip[1] && o.F.ByH[kf+1] == kf+1 {
+		kf++
+	}
+	if kf > hF {
+		kf = hF
+	}
+	if kf > kb {
+		kf = kb
+	}
+	for h := o.F.Tip[1]; h > kf; h-- {
+		blk, err := e.b.FetchHeaderByHeight(uint32(h - 1))
+		if err != nil {
+			return viResetFail(2)
+		}
+		hash := blk.BlockHash()
+		if _, err := e.f.RollbackLastBlock(&hash); err != nil {
+			return viResetFail(3)
+		}
+	}
+	if o.B.Tip[1] > kb {
+		if _, err := e.b.RollbackBlockHeaders(uint32(o.B.Tip[1] - kb)); err != nil {
+			return viResetFail(4)
+		}
+	}
+	var bh []headerfs.BlockHeader
+	for h := kb + 1; h <= top; h++ {
+		bh = append(bh, headerfs.BlockHeader{BlockHeader: e.w.main[h], Height: uint32(h)})
+	}
+	if len(bh) > 0 {
+		if err := e.b.WriteHeaders(bh...); err != nil {
+			return viResetFail(5)
+		}
+	}
+	var fh []headerfs.FilterHeader
+	for h := kf + 1; h <= hF; h++ {
+		fh = append(fh, headerfs.FilterHeader{
+			HeaderHash: e.w.main[h].BlockHash(), FilterHash: e.w.mainF[h], Height: uint32(h),
+		})
+	}
+	if len(fh) > 0 {
+		if err := e.f.WriteHeaders(fh...); err != nil {
+			return viResetFail(6)
+		}
+	}
+	if !viSameObs(e.observe(), viInitialObs(e.hh, top, hF)) {
+		return viResetFail(99)
+	}
+	// nothing hidden behind the read API either: the flat files are exactly
+	// as long as the entries they should hold
+	if !viFileSize(filepath.Join(e.dir, "block_headers.bin"), int64(top+1)*80) ||
+		!viFileSize(filepath.Join(e.dir, "reg_filter_headers.bin"), int64(hF+1)*32) {
+		return viResetFail(98)
+	}
+	return true
+}
+
+var viResetFails sync.Map
+
+func viResetFail(n int) bool {
+	c, _ := viResetFails.LoadOrStore(n, new(atomic.Int64))
+	c.(*atomic.Int64).Add(1)
+	return false
+}
+
+func viFileSize(path string, want int64) bool {
+	st, err := os.Stat(path)
+	return err == nil && st.Size() == want
+}
+
+// acquire gives e open stores at block height top / filter height hF.
+func (s *viSlot) acquire(t *viTemplates, e *viEnv, top, hF int, scratch string) error {
+	if s.dir != "" && s.db != nil && os.Getenv("VERIF_NOREUSE") == "" {
+		if s.reset(e, top, hF) {
+			return nil
+		}
+	}
+	s.discard()
+	viClones.Add(1)
+	e.db, e.b, e.f, e.plan, e.up = nil, nil, nil, nil, false
+	tmpl, err := t.forHeights(top, hF)
+	if err != nil {
+		return fmt.Errorf("template: %w", err)
+	}
+	dir, err := os.MkdirTemp(scratch, "p")
+	if err != nil {
+		return err
+	}
+	s.dir, e.dir = dir, dir
+	if err := viCloneDir(tmpl, dir); err != nil {
+		return err
+	}
+	if err := e.open(); err != nil {
+		return fmt.Errorf("initial open: %w", err)
+	}
+	if !viSameObs(e.observe(), viInitialObs(e.hh, top, hF)) {
+		return errors.New("template does not hold the expected initial state")
+	}
+	return nil
+}
+
+// release hands the stores back to the slot if they are still open.
+func (s *viSlot) release(e *viEnv) {
+	if e.up && e.db != nil && e.dir == s.dir {
+		s.db, s.b, s.f, s.plan = e.db, e.b, e.f, e.plan
+		return
+	}
+	e.kill()
+	s.db, s.b, s.f, s.plan = nil, nil, nil, nil
+	s.discard()
+}
+
+func viRunPath(t *viTemplates, slot *viSlot, p viPathIn, scratch string) (out viPathOut) {
 	out.ID = p.ID
 	out.Steps = []viStepOut{}
 	if len(p.Steps) == 0 {
@@ -950,7 +1285,12 @@ func viRunPath(t *viTemplates, p viPathIn, scratch string) (out viPathOut) {
 			buf = buf[:runtime.Stack(buf, false)]
 			out.Error = fmt.Sprintf("driver panic: %v\n%s", r, buf)
 		}
-		e.kill()
+		if out.Error != "" || e.crashed {
+			// never hand a directory that went through a crash (or a
+			// driver error) to the next configuration
+			e.up = false
+		}
+		slot.release(e)
 	}()
 	if e.hh > t.w.hh || cfg.S+cfg.N > t.w.hh {
 		out.Error = "configuration exceeds the generated universe"
@@ -969,28 +1309,12 @@ func viRunPath(t *viTemplates, p viPathIn, scratch string) (out viPathOut) {
 	if cfg.HF > top {
 		top = cfg.HF
 	}
-	tmpl, err := t.forHeights(top, cfg.HF)
-	if err != nil {
-		out.Error = "template: " + err.Error()
-		return
-	}
-	dir, err := os.MkdirTemp(scratch, "p")
-	if err != nil {
-		out.Error = err.Error()
-		return
-	}
-	defer os.RemoveAll(dir)
-	e.dir = dir
-	if err := viCloneDir(tmpl, dir); err != nil {
+	if err := slot.acquire(t, e, top, cfg.HF, scratch); err != nil {
 		out.Error = err.Error()
 		return
 	}
 	if err := e.writeFiles(); err != nil {
 		out.Error = "writing import files: " + err.Error()
-		return
-	}
-	if err := e.open(); err != nil {
-		out.Error = "initial open: " + err.Error()
 		return
 	}
 	if top > cfg.HB {
@@ -1005,7 +1329,7 @@ func viRunPath(t *viTemplates, p viPathIn, scratch string) (out viPathOut) {
 	out.InitObs = e.observe()
 
 	// where does the path inject?
-	plan := map[int]string{}
+	plan := map[int]viInj{}
 	k := 0
 	for _, s := range p.Steps {
 		switch s.Act.Op {
@@ -1013,7 +1337,7 @@ func viRunPath(t *viTemplates, p viPathIn, scratch string) (out viPathOut) {
 			if s.Act.Run == 1 {
 				k++
 				if s.Act.Inj != "none" && s.Act.Inj != "" {
-					plan[k] = s.Act.Inj
+					plan[k] = viInj{kind: s.Act.Inj, sn: s.Act.Sn}
 				}
 			}
 		}
@@ -1026,6 +1350,7 @@ func viRunPath(t *viTemplates, p viPathIn, scratch string) (out viPathOut) {
 	case "ok":
 		e.runImport(2, nil, &out.Steps)
 	case "crash":
+		e.crashed = true
 		e.kill()
 		a := viAct{Op: "Recover", Run: 1, Res: "ok", Inj: "none", T: viNF, Hs: [][]int{}, Cfg: cfg}
 		if err := e.open(); err != nil {
@@ -1099,8 +1424,10 @@ func TestVerifImportReplay(t *testing.T) {
 		wg.Add(1)
 		go func() {
 			defer wg.Done()
+			slot := &viSlot{}
+			defer slot.discard()
 			for i := range jobs {
-				results[i] = viRunPath(tm, paths[i], scratch)
+				results[i] = viRunPath(tm, slot, paths[i], scratch)
 			}
 		}()
 	}
@@ -1112,6 +1439,11 @@ func TestVerifImportReplay(t *testing.T) {
 	}
 	close(jobs)
 	wg.Wait()
+	t.Logf("verif: %d paths, %d store directories cloned", len(paths), viClones.Load())
+	viResetFails.Range(func(k, v any) bool {
+		t.Logf("verif: reset gave up at point %v: %d times", k, v.(*atomic.Int64).Load())
+		return true
+	})
 	of, err := os.Create(outFn)
 	if err != nil {
 		t.Fatal(err)
